@@ -288,7 +288,7 @@ theorem wait_epilogues {fr : Pid → Option Frame} {w : World} (hp : PInv noEx f
 
 /- non-vacuity: a world with two processes and a pending start event satisfies `InitOk`, hence `PInvB` -/
 example : ∃ w : World, InitOk w ∧ w.ev.pending ≠ [] ∧ w.procs.size = 2 := by
-  refine ⟨pushEv { procs := #[{}, {}] } aStart 1 0 0 0, ⟨?_, fun _ => ?_, fun _ => ?_, rfl, ?_⟩, by simp, rfl⟩
+  refine ⟨pushEv { procs := #[{}, {}] } aStart 1 0 0 0, ⟨?_, fun _ => ?_, fun _ => ?_, rfl, ?_, ?_⟩, by simp, rfl⟩
   · exact pushEv_evinv (w := { procs := #[{}, {}] }) _ _ _ _ _ (by decide) (Event.init_inv 0)
   · unfold World.proc; simp only [pushEv_procs]
     rename_i p
@@ -299,6 +299,42 @@ example : ∃ w : World, InitOk w ∧ w.ev.pending ≠ [] ∧ w.procs.size = 2 :
   · intro e he
     simp only [pushEv_pending, List.mem_cons, List.not_mem_nil, or_false] at he
     subst he; decide
+  · intro e he
+    simp only [pushEv_pending, List.mem_cons, List.not_mem_nil, or_false] at he
+    subst he; decide
+
+/-! ### TimerInv (I_timers): an invariant of every reachable state, for all programs
+
+`TInvB w`: (t1) a TIME(h) awaitable (h ≠ 0) of `p` has its pending (aTime) event with handle h addressed to `p`, or the
+handle has been cancelled — armed timers stay armed until they fire or are cancelled; (t2) every pending (aTime) event
+addressed to `p` is registered as TIME(handle) in `p`'s awaits — so it is cancelled when the process is interrupted,
+preempted, stopped or ends (`cancel_awaiteds` goes through the awaits); handles are at most the counter; each handle
+occurs once. TIME(0) is the dummy a refused arming (duration < 0: the kernel refuses, a fault is recorded) leaves. -/
+
+theorem timer_inv_init {w : World} (h : InitOk w) : TInvB w := h.tinv
+
+theorem timer_inv_dispatch {w w' : World} (hp : TInvB w) (hd : dispatch w = some w') : TInvB w' := hp.dispatch hd
+
+theorem timer_inv_reachable {w w' : World} (h : Reach w w') (hp : TInvB w) : TInvB w' := hp.reach h
+
+theorem timer_inv_run (fuel : Nat) (w : World) (hp : TInvB w) : TInvB (runAll fuel w) := hp.runAll fuel w
+
+/-- what it says -/
+theorem timer_inv_means {w : World} (h : TInvB w) :
+    (∀ p k, k ≠ 0 → Await.time k ∈ (w.proc p).awaits →
+      (∃ e ∈ w.ev.pending, e.key = k ∧ e.item.a = aTime ∧ e.item.b = p + 1) ∨ k ∈ w.ev.cancelled) ∧
+    (∀ e ∈ w.ev.pending, e.item.a = aTime → ∀ p, e.item.b = p + 1 → Await.time e.key ∈ (w.proc p).awaits) ∧
+    (∀ p k, Await.time k ∈ (w.proc p).awaits → k ≤ w.ev.counter) ∧
+    (∀ p, ((timeAw w p).filter (· ≠ .time 0)).Nodup) :=
+  ⟨h.t1, fun e he ha p hb => h.t2 e he ha p hb (noEx_not p), h.tle, h.tnd⟩
+
+/-- the timer primitives keep it: arming (by an existing process), cancelling, clearing, `cancel_awaiteds`, the end of a
+    process; after `timers_clear` / `cancel_awaiteds` no timer of the process is left (t2 with an empty registration) -/
+theorem timer_primitives {ex : Pid → Prop} {w : World} (hp : TInv ex w) (p : Pid) :
+    (∀ d sig, p < w.procs.size → TInv ex (timerAdd w p d sig).1) ∧ (∀ k, TInv ex (timerCancel w p k).1) ∧
+    TInv ex (timersClear w p) ∧ TInv ex (cancelAwaiteds w p) ∧ (∀ v s, TInv ex (finishProc w p v s)) :=
+  ⟨fun d sig hlt => hp.timerAdd_fst p d sig hlt, fun k => hp.timerCancel_fst p k, hp.timersClear p, hp.cancelAwaiteds p,
+   fun v s => hp.finishProc p v s⟩
 
 /- non-vacuity: the initial world satisfies the kernel invariant, so the hypotheses `EvInv w.ev`, `0 ≤ d` are satisfiable,
    and a hold really arms an event there -/
